@@ -399,12 +399,34 @@ func c14Plans(c *core.Ctx) []c14Plan {
 			add(p)
 		}
 	}
+	// death by a signal whose disposition a caller might be tempted to change (SIGPIPE, SIGINT, SIGHUP,
+	// SIGQUIT, SIGTERM), through every entry point - the command line tool included: the command gets
+	// the default dispositions, whatever the tool does about its own signals
+	for _, sig := range []int{13, 2, 1, 3, 15} {
+		for _, via := range []string{"RunCommand", "InTotoRun", "cli"} {
+			add(c14Plan{Plan: "o:100,e:50", Kill: sig, Via: via})
+		}
+	}
 	return plans
 }
 
 var c14ThreadsEnded atomic.Int64
 
+// inheritedSigIgn: the signals this process was started with as "ignored" (hexadecimal mask, as in
+// /proc/self/status). A check started as a background job of a non-interactive shell inherits
+// SIGINT and SIGQUIT that way; the helper undoes exactly these before it kills itself.
+func inheritedSigIgn() string {
+	b, _ := os.ReadFile("/proc/self/status")
+	for _, l := range strings.Split(string(b), "\n") {
+		if strings.HasPrefix(l, "SigIgn:") {
+			return strings.TrimSpace(strings.TrimPrefix(l, "SigIgn:"))
+		}
+	}
+	return "0"
+}
+
 func runC14(c *core.Ctx) {
+	os.Setenv("VERIF_INHERITED_SIGIGN", inheritedSigIgn())
 	intoto.VerifHook = c14Hook
 	// a quarter of the workers run single-threaded: the two pipe readers cannot run in parallel there
 	if c.Shard%4 == 0 {
@@ -665,6 +687,89 @@ func c14Special(c *core.Ctx, helper string, key gen.KeyPair) {
 			}
 		}
 	}
+	// (6) the command starts with the default signal dispositions: a shell that sends itself a signal
+	// dies of it (the shell is asked directly - a Go helper in between would re-install its own
+	// handlers). Signals that this process itself inherited as ignored are left out: nobody can undo
+	// that for a shell.
+	if c.Shard == 6%c.NShards {
+		inherited, _ := strconv.ParseUint(inheritedSigIgn(), 16, 64)
+		keyFile := filepath.Join(c.WorkDir, "special-key.pem")
+		os.WriteFile(keyFile, []byte(key.PrivPEM), 0600)
+		for _, sg := range []struct {
+			name string
+			no   int
+		}{{"PIPE", 13}, {"INT", 2}, {"HUP", 1}, {"QUIT", 3}, {"TERM", 15}} {
+			if inherited&(1<<uint(sg.no-1)) != 0 {
+				c.SetAdd("signals_inherited_as_ignored_and_left_out", sg.name)
+				continue
+			}
+			args := []string{"sh", "-c", "kill -" + sg.name + " $$; echo survived"}
+			for vi, via := range []string{"RunCommand", "InTotoRun", "cli"} {
+				id := fmt.Sprintf("special/default-disposition-of-SIG%s/%s", sg.name, via)
+				if !c.Want(id) {
+					continue
+				}
+				c.Begin(id)
+				var res c14Result
+				switch via {
+				case "RunCommand":
+					res = callWatched(c, func() (map[string]interface{}, error) { return intoto.RunCommand(args, "") })
+				case "InTotoRun":
+					res = callWatched(c, func() (map[string]interface{}, error) {
+						return byProducts(intoto.InTotoRun("s", "", nil, nil, args, key.Priv, []string{"sha256"}, nil, nil, false, false, false))
+					})
+				default:
+					res = c14CLI(c, 900000+sg.no*10+vi, args, "", keyFile, key)
+				}
+				c.End(id)
+				c.Eval(1)
+				switch {
+				case res.hung || res.unknown:
+					c.Inconclusive("signal disposition probe did not return")
+				case res.err != nil:
+					c.Violation("command that terminates is reported as an error (via "+via+"): "+core.MsgClass(res.err.Error()), id, nil)
+				case str(res.out, "stdout") != "" || status(res.out) == "0":
+					c.Violation(fmt.Sprintf("a command that kills itself with SIG%s is recorded as having carried on (via %s): it was started with that signal ignored", sg.name, via), id, map[string]any{"stdout": str(res.out, "stdout"), "return-value": res.out["return-value"], "argv": args})
+				default:
+					ok++
+					c.Class("special", "disposition", sg.name, via)
+				}
+			}
+		}
+	}
+	// (7) a command that opens its output streams again by path (`> /dev/stdout`, `-o /dev/stderr`)
+	// between ordinary writes: everything it wrote is there, in order
+	if c.Shard == 7%c.NShards {
+		args := []string{"sh", "-c", "echo first; echo second > /dev/stdout; echo third; echo e1 >&2; echo e2 > /dev/stderr; echo e3 >&2; echo fourth >> /dev/stdout"}
+		for _, via := range []string{"RunCommand", "InTotoRun"} {
+			id := "special/streams-reopened-by-path/" + via
+			if !c.Want(id) {
+				continue
+			}
+			c.Begin(id)
+			var res c14Result
+			if via == "RunCommand" {
+				res = callWatched(c, func() (map[string]interface{}, error) { return intoto.RunCommand(args, "") })
+			} else {
+				res = callWatched(c, func() (map[string]interface{}, error) {
+					return byProducts(intoto.InTotoRun("s", "", nil, nil, args, key.Priv, []string{"sha256"}, nil, nil, false, false, true))
+				})
+			}
+			c.End(id)
+			c.Eval(1)
+			switch {
+			case res.hung || res.unknown:
+				c.Inconclusive("reopened-streams case did not return")
+			case res.err != nil:
+				c.Violation("command that terminates is reported as an error (via "+via+"): "+core.MsgClass(res.err.Error()), id, nil)
+			case str(res.out, "stdout") != "first\nsecond\nthird\nfourth\n" || str(res.out, "stderr") != "e1\ne2\ne3\n" || status(res.out) != "0":
+				c.Violation("output of a command that opens /dev/stdout and /dev/stderr by path between its writes is not recorded completely (via "+via+")", id, map[string]any{"stdout": str(res.out, "stdout"), "stderr": str(res.out, "stderr"), "return-value": res.out["return-value"]})
+			default:
+				ok++
+				c.Class("special", "reopened", via)
+			}
+		}
+	}
 	// (5) some MiB of line-oriented output through the DSSE wrapper: the call returns (spin witness in callWatched)
 	if c.Shard == 5%c.NShards {
 		p := c14Plan{Seed: 77, Plan: "o:4194304,e:1048576", Via: "InTotoRun"}
@@ -857,7 +962,7 @@ func init() {
 	core.Register(&core.Property{
 		ID:    "C14",
 		Level: "exploration",
-		Rule: "commands `vhelper emit` with planned output: stdout x stderr sizes from {0, 1, 4095, 4096, 65535, 65536, 65537, 200000, 1 MiB (, 4 MiB thorough)} in both orders, alternating chunks of 1 / 4096 / 65537 bytes, one stream closed before the other is written, random sequences of 1-8 chunks with sizes around 4 KiB / 64 KiB / 128 KiB on either stream with optional pauses and early closes (80 quick / 3000 thorough), text (with CR, LF, TAB), binary content and single lines of 64 KiB - 1 MiB without any line break, InTotoRun with line normalisation on and off, exit statuses 0..255 (16 values), death by signals 1,2,6,9,11,13,15, run directory empty or a temp dir, program given relative to the run directory; through RunCommand, InTotoRun (by-products) and the CLI `run` (by-products in the link file); unstartable and empty commands (also an inspection with an empty run list through RunInspections, and through InTotoRun with products to record afterwards); a command that reads its standard input while the caller's own standard input is an open pipe with pending data (must see an empty input); a command that exits 0 and leaves a descendant on its output streams (status 0 and its own output); an inspection whose one-element command is the path of an executable with a blank in it; 4 MiB of lines through InTotoRun with the DSSE wrapper; a quarter of the workers run with GOMAXPROCS=1, another quarter in a process whose OS threads keep ending (goroutines that lock their thread and return, about 1000 per second). Oracle: streams regenerated from the seed and compared byte for byte, exact exit status; hang = causal witness (a thread of the child blocked in write(2) on fd 1/2, CPU time unchanged over 3 samples, call not returned; pid from the cmd_started hook), or: the command has ended, the call has not returned and the calling process has used 30 CPU-seconds since the call began), otherwise inconclusive. " +
+		Rule: "commands `vhelper emit` with planned output: stdout x stderr sizes from {0, 1, 4095, 4096, 65535, 65536, 65537, 200000, 1 MiB (, 4 MiB thorough)} in both orders, alternating chunks of 1 / 4096 / 65537 bytes, one stream closed before the other is written, random sequences of 1-8 chunks with sizes around 4 KiB / 64 KiB / 128 KiB on either stream with optional pauses and early closes (80 quick / 3000 thorough), text (with CR, LF, TAB), binary content and single lines of 64 KiB - 1 MiB without any line break, InTotoRun with line normalisation on and off, exit statuses 0..255 (16 values), death by signals 1,2,6,9,11,13,15, run directory empty or a temp dir, program given relative to the run directory; through RunCommand, InTotoRun (by-products) and the CLI `run` (by-products in the link file); unstartable and empty commands (also an inspection with an empty run list through RunInspections, and through InTotoRun with products to record afterwards); a command that reads its standard input while the caller's own standard input is an open pipe with pending data (must see an empty input); a command that exits 0 and leaves a descendant on its output streams (status 0 and its own output); an inspection whose one-element command is the path of an executable with a blank in it; 4 MiB of lines through InTotoRun with the DSSE wrapper; a command that re-opens /dev/stdout and /dev/stderr by path between ordinary writes; a shell that sends itself SIGPIPE / INT / HUP / QUIT / TERM through RunCommand, InTotoRun and the CLI (it must die of it: commands start with default dispositions; signals the harness itself inherited as ignored are left out); a quarter of the workers run with GOMAXPROCS=1, another quarter in a process whose OS threads keep ending (goroutines that lock their thread and return, about 1000 per second). Oracle: streams regenerated from the seed and compared byte for byte, exact exit status; hang = causal witness (a thread of the child blocked in write(2) on fd 1/2, CPU time unchanged over 3 samples, call not returned; pid from the cmd_started hook), or: the command has ended, the call has not returned and the calling process has used 30 CPU-seconds since the call began), otherwise inconclusive. " +
 			"non-trivial = a stream exceeds one pipe buffer (64 KiB) or a non-zero status; distinct = (via, size classes, order, exit, signal, run dir)",
 		Assumptions: []string{"Linux x86-64 /proc/<pid>/task/*/syscall is readable (we run as root)", "for death by signal only 'not reported as success' is required"},
 		Workers:     func(string) int { return 16 },
